@@ -8,8 +8,8 @@ import (
 
 	"github.com/glebziz/fs_db/verifh/conc"
 	"github.com/glebziz/fs_db/verifh/enum"
-	"github.com/glebziz/fs_db/verifh/seq"
 	"github.com/glebziz/fs_db/verifh/hk"
+	"github.com/glebziz/fs_db/verifh/seq"
 )
 
 type checkFn func(tier string) int
